@@ -9,6 +9,8 @@ generated tables and breaks `encode_layout_v1` / `encode_formats_v1` below. The 
 through the same formats (precompiled Structs, helpers, renamed functions) leaves it unchanged.
 -/
 import Bermuda.Lemmas.CodecPy
+import Bermuda.Lemmas.CodecLiteral
+import Bermuda.Lemmas.CodecGolden
 import Bermuda.Properties.C01
 import Bermuda.Generated.BinaryFormats
 namespace Bermuda.Properties.C06
@@ -211,5 +213,172 @@ example : decode [] = .error .valueError := decode_bad_magic_error _ (by decide)
 example : decode [0x00, 0x01, 0x36, 0xAF, 0x01] = .error .valueError := decode_bad_magic_error _ (by decide)
 example : decode [0xAF, 0x36, 0x01, 0x00, 0x02, 0, 0] = .error .valueError := decode_bad_version_error _ (by decide)
 example : decode [0xAF, 0x36, 0x01, 0x00] = .error .valueError := decode_bad_version_error _ (by decide)
+
+/-! ### 7b. the per-function format table and the content of the pool (audit follow-up) -/
+
+/-- which `struct` format each private function of writer and reader may use (table `writerFormats` /
+`readerFormats` of `Generated.Binary`, extracted from the source text on every run). Stated so that a
+behaviour-preserving refactoring (renamed helpers, precompiled `Struct` objects) cannot make it false — an entry
+under another function name is only required to use a v1 format — while, as long as the functions keep their
+names, the use of `<h` against `<H` is pinned per function: pool count written `<h` and read `<H`, key index
+`<H` on both sides, string length written `<H` (`<h` only for the `None` marker −1) and read `<h`. The observed
+format SETS of `encode_formats_v1` cannot tell these apart. -/
+def v1Formats : List String := ["<h", "<H", "<hBB", "<q", "<d", "<B", "<L", "?"]
+
+def allowedFormats : String → List String
+  | "_write_string_pool" => ["<h"]
+  | "_read_string_pool" => ["<H"]
+  | "_write_dict" => ["<H"]
+  | "_read_dict" => ["<H"]
+  | "_write_string" => ["<H", "<h"]
+  | "_read_string" => ["<h"]
+  | "_write_date" => ["<hBB"]
+  | "_read_date" => ["<hBB"]
+  | "_write_float" => ["<d"]
+  | "_read_float" => ["<d"]
+  | "_write_array" => ["<B", "<L"]
+  | "_read_array" => ["<B", "<L"]
+  | "_write_generic_value" => ["<d", "<q", "?"]
+  | "_read_generic_value" => ["<d", "<q", "?"]
+  | _ => v1Formats
+
+theorem formats_per_function_v1 :
+    (writerFormats.all fun e => e.2.1 == "pack" && (allowedFormats e.1).contains e.2.2) = true ∧
+    (readerFormats.all fun e => e.2.1 == "unpack" && (allowedFormats e.1).contains e.2.2) = true := by
+  decide
+
+/-- the pool holds exactly the distinct keys of `values` / `details` / `loss_details` of the triangle, and
+besides them only the empty placeholder -/
+theorem pool_content (t : RawTriangle) :
+    (∀ k, k ∈ sortedKeys t ↔ k ∈ allKeys t) ∧
+    (∀ s ∈ poolOf t, s = [] ∨ s ∈ allKeys t) ∧
+    (∀ k ∈ allKeys t, ∃ j, poolLookup (poolOf t) k = some j ∧ (poolOf t)[j]? = some k) := by
+  refine ⟨fun k => mem_sortedKeys t k, ?_, ?_⟩
+  · intro s hs
+    rcases mem_padPool _ _ _ hs with h | h
+    · exact Or.inl h
+    · exact Or.inr ((mem_sortedKeys t s).mp h)
+  · intro k hk
+    obtain ⟨j, h1, _, h3⟩ := poolOf_lookup t k hk
+    exact ⟨j, h1, h3⟩
+
+/-! ### 8. the layout pinned by LITERAL byte vectors (audit follow-up)
+
+The three vectors below were written by `to_binary` of the verified tree (not by the model): an incremental
+two-slice triangle with every value kind (`Codec.exTriangle`), a plain `Cell` triangle and a `CumulativeCell`
+triangle. The kernel checks that the model's encoder produces exactly these bytes and that the model's decoder
+reads them back: the order of the fields inside a metadata / cell record, the position of
+`prev_evaluation_date` after the values dict, `<h` count vs `<H` index vs `<H`/`<h` string length, the record
+and type tags, the placement of `DICT_END` are all fixed by these equalities — a model edit made together with
+a symmetric code edit no longer leaves every theorem true. -/
+
+def exTriangleBytes : Bytes :=
+  [175, 54, 1, 0, 1, 9, 0, 1, 0, 98, 1, 0, 100, 1, 0, 102, 1, 0, 107, 1, 0, 110, 1, 0, 112, 1, 0, 113, 1, 0,
+    114, 1, 0, 120, 16, 1, 0, 65, 3, 0, 195, 156, 98, 255, 255, 0, 0, 255, 255, 0, 0, 0, 0, 0, 0, 240, 63, 3, 0,
+    128, 2, 0, 195, 159, 1, 0, 133, 228, 7, 2, 29, 0, 0, 131, 1, 136, 4, 0, 132, 8, 0, 129, 251, 255, 255, 255,
+    255, 255, 255, 255, 2, 0, 130, 0, 0, 0, 0, 0, 0, 4, 64, 136, 19, 228, 7, 1, 1, 228, 7, 12, 31, 228, 7, 12,
+    31, 5, 0, 129, 255, 255, 255, 255, 255, 255, 255, 127, 6, 0, 134, 2, 2, 0, 0, 0, 1, 0, 0, 0, 1, 0, 0, 0, 0,
+    0, 0, 0, 2, 0, 0, 0, 0, 0, 0, 0, 7, 0, 135, 0, 0, 0, 0, 0, 0, 0, 248, 127, 136, 228, 7, 11, 30, 16, 1, 0,
+    65, 3, 0, 195, 156, 98, 255, 255, 0, 0, 255, 255, 0, 0, 0, 0, 0, 0, 248, 127, 136, 4, 0, 132, 8, 0, 129,
+    251, 255, 255, 255, 255, 255, 255, 255, 2, 0, 130, 0, 0, 0, 0, 0, 0, 4, 64, 136, 19, 229, 7, 1, 1, 229, 7,
+    12, 31, 229, 7, 12, 31, 5, 0, 132, 136, 229, 7, 11, 30]
+
+def exMeta3 : RawMetadata :=
+  { riskBasis := some [65, 99, 99, 105, 100, 101, 110, 116], country := none, currency := some [85, 83, 68],
+    reinsuranceBasis := none, lossDefinition := none, limit := none,
+    details := [([99, 111, 118], .str [66, 73])], lossDetails := [] }
+
+/-- one plain `Cell` -/
+def exCellTriangle : RawTriangle :=
+  [ { kind := .cell, ps := ⟨2019, 1, 1⟩, pe := ⟨2019, 3, 31⟩, ev := ⟨2019, 6, 30⟩, prev := none, md := exMeta3,
+      values := [([112, 97, 105, 100], .int 100), ([114, 101, 112], .flt [0, 0, 0, 0, 0, 0, 4, 64])] } ]
+
+def exCellBytes : Bytes :=
+  [175, 54, 1, 0, 1, 3, 0, 3, 0, 99, 111, 118, 4, 0, 112, 97, 105, 100, 3, 0, 114, 101, 112, 16, 8, 0, 65, 99,
+    99, 105, 100, 101, 110, 116, 255, 255, 3, 0, 85, 83, 68, 255, 255, 255, 255, 0, 0, 0, 0, 0, 0, 248, 127, 0,
+    0, 128, 2, 0, 66, 73, 136, 136, 17, 227, 7, 1, 1, 227, 7, 3, 31, 227, 7, 6, 30, 1, 0, 129, 100, 0, 0, 0, 0,
+    0, 0, 0, 2, 0, 130, 0, 0, 0, 0, 0, 0, 4, 64, 136]
+
+/-- two `CumulativeCell`s of one slice (one metadata record), a bool and a 1-d float64 array -/
+def exCumTriangle : RawTriangle :=
+  [ { kind := .cumulative, ps := ⟨2019, 1, 1⟩, pe := ⟨2019, 3, 31⟩, ev := ⟨2019, 6, 30⟩, prev := none, md := exMeta3,
+      values := [([112, 97, 105, 100], .int 100), ([114, 101, 112], .flt [0, 0, 0, 0, 0, 0, 4, 64])] },
+    { kind := .cumulative, ps := ⟨2019, 1, 1⟩, pe := ⟨2019, 3, 31⟩, ev := ⟨2019, 9, 30⟩, prev := none, md := exMeta3,
+      values := [([112, 97, 105, 100], .bool false),
+                 ([114, 101, 112], .fltArr [2] [0, 0, 0, 0, 0, 0, 248, 63, 0, 0, 0, 0, 0, 0, 0, 192])] } ]
+
+def exCumBytes : Bytes :=
+  [175, 54, 1, 0, 1, 3, 0, 3, 0, 99, 111, 118, 4, 0, 112, 97, 105, 100, 3, 0, 114, 101, 112, 16, 8, 0, 65, 99,
+    99, 105, 100, 101, 110, 116, 255, 255, 3, 0, 85, 83, 68, 255, 255, 255, 255, 0, 0, 0, 0, 0, 0, 248, 127, 0,
+    0, 128, 2, 0, 66, 73, 136, 136, 18, 227, 7, 1, 1, 227, 7, 3, 31, 227, 7, 6, 30, 1, 0, 129, 100, 0, 0, 0, 0,
+    0, 0, 0, 2, 0, 130, 0, 0, 0, 0, 0, 0, 4, 64, 136, 18, 227, 7, 1, 1, 227, 7, 3, 31, 227, 7, 9, 30, 1, 0, 131,
+    0, 2, 0, 135, 1, 2, 0, 0, 0, 0, 0, 0, 0, 0, 0, 248, 63, 0, 0, 0, 0, 0, 0, 0, 192, 136]
+
+/-- the keys of `exTriangle` (all occurrences) in byte order -/
+def exTriangleKeys : List Bytes :=
+  [[98], [100], [102], [102], [107], [110], [110], [112], [112], [113], [114], [120], [120]]
+
+theorem encode_exTriangle_bytes : encode exTriangle = exTriangleBytes :=
+  encode_eq_literal _ exTriangleKeys _ (by decide +kernel) (by decide +kernel) (by decide +kernel)
+
+theorem encodePy_exTriangle_bytes : encodePy exTriangle = exTriangleBytes :=
+  encodePy_eq_literal _ exTriangleKeys _ (by decide +kernel) (by decide +kernel) (by decide +kernel)
+
+theorem decode_exTriangle_bytes : decode exTriangleBytes = .ok exTriangle :=
+  decode_of_decodesTo (by decide +kernel)
+
+def exSmallKeys : List Bytes := [[99, 111, 118], [112, 97, 105, 100], [114, 101, 112]]
+def exSmallKeys2 : List Bytes :=
+  [[99, 111, 118], [99, 111, 118], [112, 97, 105, 100], [112, 97, 105, 100], [114, 101, 112], [114, 101, 112]]
+
+theorem encode_exCell_bytes : encode exCellTriangle = exCellBytes ∧ encodePy exCellTriangle = exCellBytes :=
+  ⟨encode_eq_literal _ exSmallKeys _ (by decide +kernel) (by decide +kernel) (by decide +kernel),
+   encodePy_eq_literal _ exSmallKeys _ (by decide +kernel) (by decide +kernel) (by decide +kernel)⟩
+
+theorem decode_exCell_bytes : decode exCellBytes = .ok exCellTriangle :=
+  decode_of_decodesTo (by decide +kernel)
+
+theorem encode_exCum_bytes : encode exCumTriangle = exCumBytes ∧ encodePy exCumTriangle = exCumBytes :=
+  ⟨encode_eq_literal _ exSmallKeys2 _ (by decide +kernel) (by decide +kernel) (by decide +kernel),
+   encodePy_eq_literal _ exSmallKeys2 _ (by decide +kernel) (by decide +kernel) (by decide +kernel)⟩
+
+theorem decode_exCum_bytes : decode exCumBytes = .ok exCumTriangle :=
+  decode_of_decodesTo (by decide +kernel)
+
+/-! ### 9. history as theorems (model side): the small .trib files shipped with the package and its test data
+
+`Lemmas/CodecGolden.lean` holds the sha256-pinned bytes of `bermuda/meyers.trib` (4794 bytes, 100 cells),
+`test/test_data/holey_init_tri.trib` (4929), `missing_eval.trib` (2710) and `missing_cells.trib` (1112) and their
+recorded contents as literals. The kernel checks that the decoder recovers exactly the recorded cells and that
+re-encoding gives the same bytes — independent of the run-time corpus reader. (That `from_binary` of the tree under
+test returns these cells is the `history` stream of the harness; `ragged_aq_triangle.trib`, 31 KB, stays there only:
+its literal alone takes minutes to elaborate.) -/
+
+open Bermuda.Codec.Golden in
+theorem golden_missing_cells :
+    decode missing_cellsBytes = .ok missing_cellsCells ∧ encode missing_cellsCells = missing_cellsBytes :=
+  ⟨decode_of_decodesTo (by decide +kernel),
+   encode_eq_literal _ missing_cellsKeys _ (by decide +kernel) (by decide +kernel) (by decide +kernel)⟩
+
+set_option maxRecDepth 100000 in
+open Bermuda.Codec.Golden in
+theorem golden_missing_eval :
+    decode missing_evalBytes = .ok missing_evalCells ∧ encode missing_evalCells = missing_evalBytes :=
+  ⟨decode_of_decodesTo (by decide +kernel),
+   encode_eq_literal _ missing_evalKeys _ (by decide +kernel) (by decide +kernel) (by decide +kernel)⟩
+
+set_option maxRecDepth 100000 in
+open Bermuda.Codec.Golden in
+theorem golden_meyers :
+    decode meyersBytes = .ok meyersCells ∧ encode meyersCells = meyersBytes :=
+  ⟨decode_of_decodesTo (by decide +kernel),
+   encode_eq_literal _ meyersKeys _ (by decide +kernel) (by decide +kernel) (by decide +kernel)⟩
+
+set_option maxRecDepth 100000 in
+open Bermuda.Codec.Golden in
+theorem golden_holey_init_tri :
+    decode holey_init_triBytes = .ok holey_init_triCells ∧ encode holey_init_triCells = holey_init_triBytes :=
+  ⟨decode_of_decodesTo (by decide +kernel),
+   encode_eq_literal _ holey_init_triKeys _ (by decide +kernel) (by decide +kernel) (by decide +kernel)⟩
 
 end Bermuda.Properties.C06
